@@ -13,6 +13,11 @@ pub struct Diff {
 /// Compare two flat trees. Numbers: |a-b| <= abs + rel*max(|a|,|b|); everything else: equality.
 /// `map_b` transforms the expected value per path (scaling etc.); `skip` removes paths from the comparison.
 pub fn cmp_flat(a: &Flat, b: &Flat, abs: f64, rel: f64, skip: &dyn Fn(&str) -> bool, map_a: &dyn Fn(&str, f64) -> f64) -> Vec<Diff> {
+    cmp_flat_rt(a, b, abs, rel, 1e-4, skip, map_a)
+}
+
+/// as `cmp_flat` with an explicit tolerance for the ratio leaves (`rer*`)
+pub fn cmp_flat_rt(a: &Flat, b: &Flat, abs: f64, rel: f64, ratio_tol: f64, skip: &dyn Fn(&str) -> bool, map_a: &dyn Fn(&str, f64) -> f64) -> Vec<Diff> {
     let mut out = vec![];
     for (p, la) in a {
         if skip(p) {
@@ -31,7 +36,7 @@ pub fn cmp_flat(a: &Flat, b: &Flat, abs: f64, rel: f64, skip: &dyn Fn(&str) -> b
                     let x = map_a(p, x);
                     let ok = if p.starts_with("rer") {
                         // ratios: 1e-4 of their size
-                        (x - y).abs() <= 1e-4 * x.abs().max(y.abs()).max(1.0)
+                        (x - y).abs() <= ratio_tol * x.abs().max(y.abs()).max(1.0)
                     } else {
                         (x - y).abs() <= abs + rel * x.abs().max(y.abs())
                     } || x == y
